@@ -42,11 +42,27 @@ def load_findings(prop):
     return [e for e in data.get("findings", []) if e.get("property") == prop]
 
 
-def _init_worker():
+_HUNG = None       # shared counter of cases of the current family that did not return (set per pool)
+
+
+def _init_worker(hung=None):
+    global _HUNG
+    _HUNG = hung
     try:
         import resource
-        cap = int(float(os.environ.get("VERIF_CASE_MEM_GB", "6")) * 2 ** 30)
-        resource.setrlimit(resource.RLIMIT_AS, (cap, cap))       # a call that allocates without end fails with MemoryError instead of thrashing the machine
+        # a call that allocates without end fails with MemoryError instead of thrashing the machine.  The cap is on top of the address space
+        # the worker already has, and small enough that ALL workers can reach it together without waking the kernel's OOM killer
+        # (a killed pool worker loses its task silently).
+        extra = float(os.environ.get("VERIF_CASE_MEM_GB", "4")) * 2 ** 30
+        try:
+            total = os.sysconf("SC_PAGE_SIZE") * os.sysconf("SC_PHYS_PAGES")
+            extra = min(extra, 0.6 * total / max(1, NCPU))
+        except (ValueError, OSError):
+            pass
+        with open("/proc/self/statm") as f:
+            base = int(f.read().split()[0]) * os.sysconf("SC_PAGE_SIZE")
+        cap = int(base + max(extra, 2 ** 30))
+        resource.setrlimit(resource.RLIMIT_AS, (cap, cap))
     except Exception:
         pass
     try:
@@ -65,12 +81,24 @@ def _on_alarm(signum, frame):
 
 
 
+def _count_hung():
+    if _HUNG is not None:
+        with _HUNG.get_lock():
+            _HUNG.value += 1
+
+
+def _call_chunk(argl):
+    return [_call(a) for a in argl]
+
+
 def _call(args):
     """One case on the real code, under a watchdog: a call of the library that does not return within the limit is reported
     (a rejection of the run: every property presupposes that the call returns), it never hangs the check."""
     import signal
     modname, fname, case = args[:3]
     limit = args[3] if len(args) > 3 else float(os.environ.get("VERIF_CASE_TIMEOUT", "150") or 150)
+    if _HUNG is not None and _HUNG.value >= 4:
+        return {"id": case.get("id"), "__notrun__": 1}       # the family is already rejected; the rest of this worker's chunk is not run
     try:
         mod = importlib.import_module(modname)
         old = signal.signal(signal.SIGALRM, _on_alarm)
@@ -81,8 +109,10 @@ def _call(args):
             signal.setitimer(signal.ITIMER_REAL, 0)
             signal.signal(signal.SIGALRM, old)
     except _CaseTimeout:
+        _count_hung()
         return {"id": case.get("id"), "__timeout__": limit, "given": case.get("given", {}), "events": case.get("events", [])}
     except MemoryError:
+        _count_hung()
         return {"id": case.get("id"), "__timeout__": "the memory cap", "given": case.get("given", {}), "events": case.get("events", [])}
     except MachineryError as e:
         return {"id": case.get("id"), "__machinery__": str(e)}
@@ -149,8 +179,29 @@ class Ctx:
             return []
         ctx = mp.get_context("fork")
         out, hung = [], []
-        with ctx.Pool(min(procs, max(1, len(cases))), initializer=_init_worker) as pool:
-            for o in pool.imap(_call, [(modname, fname, c) for c in cases], chunksize=chunksize):
+        nhung = ctx.Value("i", 0)
+        with ctx.Pool(min(procs, max(1, len(cases))), initializer=_init_worker, initargs=(nhung,)) as pool:
+            argl = [(modname, fname, c) for c in cases]
+            it = pool.imap(_call_chunk, [argl[i:i + chunksize] for i in range(0, len(argl), chunksize)])      # an IMapIterator: next() takes a timeout
+            limit = float(os.environ.get("VERIF_CASE_TIMEOUT", "150") or 150)
+            got, buf, stop = 0, [], False
+            while not stop:
+                if not buf:
+                    try:
+                        buf = list(it.next(timeout=limit * chunksize + 120))
+                    except StopIteration:
+                        break
+                    except mp.TimeoutError:
+                        buf = None
+                if buf is None:
+                    # the worker running this chunk died (killed from outside) or cannot answer: the first case whose answer is missing stands for it
+                    hung.append({"id": cases[got]["id"], "__timeout__": "%d s for its chunk of %d cases (the worker process was lost)" % (limit * chunksize + 120, chunksize)})
+                    pool.terminate()
+                    break
+                o = buf.pop(0)
+                got += 1
+                if isinstance(o, dict) and "__notrun__" in o:
+                    continue
                 if isinstance(o, dict) and "__timeout__" in o:
                     hung.append(o)
                     if len(hung) >= 4:
@@ -380,7 +431,8 @@ def replay(prop, path):
     case = rp["case"]
     if rp.get("module") is None:                 # a watchdog rejection: the case did not return
         bind_repo()
-        o = _call((rp["driver"], rp["exec_fn"], case))
+        with mp.get_context("fork").Pool(1, initializer=_init_worker) as pool:       # same caps as in the run
+            o = pool.apply(_call, ((rp["driver"], rp["exec_fn"], case),))
         if isinstance(o, dict) and "__timeout__" in o:
             print("REPLAY: property=%s key=%s still rejected (no answer within %s)" % (prop, rp["key"], o["__timeout__"]))
             return 1
